@@ -652,7 +652,7 @@ def counter_checks(paths, ctx, solver):
             # whether the counter is advanced then depends on something else - try boundary values natively
             base = ga_scenario(p, ctx)
             variants = []
-            for c in (0, 1, 7, 2 ** 31, 2 ** 32 - 2):
+            for c in (0, 1, 7, 2 ** 31, 2 ** 32 - 2, None):
                 v = json.loads(json.dumps(base))
                 v["store"]["held"][0]["counter"] = c
                 variants.append(v)
@@ -662,6 +662,8 @@ def counter_checks(paths, ctx, solver):
                 if not (isinstance(o["result"], dict) and "ok" in o["result"]):
                     return False
                 u = [x for x in o["log"] if x["call"] == "update"]
+                if c is None:
+                    return bool(u)        # a credential without a counter is never rewritten
                 return (not u) or u[0]["counter"] != c + 1 or o["result"]["ok"]["counter"] != c + 1
             F.append(Finding("C08", "ga.counter-guard", "the decision to advance the counter does not depend on the stored counter's presence alone (%s)" %
                              "; ".join(k[:60] for k, op, v in p.conds if "filter" in k or "counter" in k)[:120], variants, pred, p))
@@ -994,6 +996,19 @@ def check_make_credential(paths, ctx, want):
                     if d == 0 and isempty == 0 and not (kind == "Err" and "CredentialExcluded" in tstr(payload)):
                         F.append(Finding("C05", "mc.excluded-not-refused", "the exclude list names a held credential but registration continues", mc_scenario(p, ctx),
                                          lambda o: o["result"] != {"err": 0x19}, p))
+
+            # ... and only then ("exactly when"): a refusal must rest on the lookup having returned a non-empty list
+            if "C05" in want and kind == "Err" and "CredentialExcluded" in tstr(payload) and find:
+                mp = calls(p, "Result::map")
+                tested_empty = bool(mp) and cond_value(p, tstr(("proj", mp[0][1]["ret"], "@Ok.0"))) == 0
+                if not tested_empty:
+                    lens = [k for k, op, v in p.conds if "is_empty" in k or "Vec::len" in k]
+                    if not lens:
+                        sc = {"op": "make_credential", "request": {"up": True, "uv": False, "rk": False, "pin_auth": False, "exclude_list": [9]},
+                              "store": {"find": {"ok": 0}, "held": [], "capability": "forced", "pending": {}},
+                              "user": {"verification": True, "presence_enabled": True, "outcome": {"ok": [True, True]}, "pending": 0}, "config": {}}
+                        F.append(Finding("C05", "mc.excluded-without-a-match", "CredentialExcluded is returned on a path that never tests whether the lookup found anything "
+                                         "(a store answering a miss with an empty list is refused)", sc, lambda o: o["result"] == {"err": 0x19}, p))
 
         if "C11" in want:
             rkv = cond_value(p, tstr(input_field(ctx, ctx.mc["options"], ctx.opt["rk"])))
@@ -1598,7 +1613,17 @@ def check_provider_argument(fns, fn_name_needle):
                                      "the suffix provider is asked about the decoded (Unicode) form of the RP ID (through a closure applied to decode_host's result)",
                                      {"op": "rp_id_valid", "names": IDN_SUFFIXES}, lambda o: bool(o["result"].get("accepted")), p))
     if not seen_provider:
-        raise Shape("%s never consults the suffix provider" % fn_name_needle)
+        delegated = any(e["kind"] == "call" and e["callee"].endswith("assert_valid_rp_id") for p in ps for e in p.events)
+        if not delegated:
+            raise Shape("%s never consults the suffix provider" % fn_name_needle)
+        if fn_name_needle == "assert_android_rp_id":
+            # the shared helper grants the localhost exemption by RP ID alone; the Android path has no literal-host guard of its own
+            guarded = any("localhost" in k for p in ps for k, op, v in p.conds) or any(e["kind"] == "call" and "localhost" in tstr(e["args"]) for p in ps for e in p.events)
+            if not guarded:
+                F.append(Finding("C01", "assert_android_rp_id.localhost-exemption-unguarded",
+                                 "assert_android_rp_id delegates to assert_valid_rp_id (which accepts the RP ID `localhost` when insecure localhost is enabled) without comparing the "
+                                 "asset-link host with the literal `localhost`", {"op": "android_rp", "allow_localhost": True, "cases": [["app.localhost", "localhost"], ["evil.dev.localhost", "localhost"]]},
+                                 lambda o: any(c["accepted"] for c in o["result"]["cases"]), ps[0] if ps else None))
     return F, len(ps)
 
 
@@ -2788,6 +2813,12 @@ def check_store_writes(fns, kind):
                         key = e["args"][1]
                         if not derives_from(key, ("in", "_1.0"), p) and "_1.0" not in tstr(key) + tstr(list(p.events[key[1]].get("pointees", {}).values()) if key[0] == "ret" and isinstance(key[1], int) else ""):
                             ok = False
+            removers = [e["callee"].split("::")[-1] for _, e in ev if e["callee"].endswith(("::retain", "::remove", "::clear", "::drain", "::remove_entry", "::extract_if", "::take"))]
+            if removers:
+                for _pid in (("C07", "C02") if m == "save_credential" else ("C08",)):
+                    F.append(Finding(_pid, "store.%s.%s-removes-credentials" % (kind, m),
+                                     "<%s as CredentialStore>::%s also removes entries from the store (%s): other credentials can disappear" % (ty, m, removers), sc,
+                                     lambda o: o["result"].get("others_kept") is not True, p))
             if not ok:
                 F.append(Finding("C08" if m == "update_credential" else "C07", "store.%s.%s-not-stored" % (kind, m),
                                  "<%s as CredentialStore>::%s answers Ok on a path that does not unconditionally put the given credential into the store (calls: %s)" %
